@@ -20,7 +20,8 @@ import mpyc.runtime as mrt  # noqa: E402
 from mpyc import asyncoro, sectypes, thresha, mpctools  # noqa: E402
 import mpyc.seclists  # noqa: E402
 import mpyc.secpols  # noqa: E402
-import mpyc.secgroups  # noqa: E402
+import mpyc.secgroups
+from mpyc import finfields  # noqa: E402
 import mpyc.random  # noqa: E402
 import mpyc.statistics  # noqa: E402
 
@@ -145,6 +146,12 @@ def reset_world_caches():
         if callable(g) and hasattr(g, 'cache_clear') and getattr(g, '__module__', '') == 'mpyc.secgroups':
             g.cache_clear()
     mrt.Runtime.prfs.cache_clear()
+    # prime field classes are cached per modulus for the life of the process and carry a mutable `is_signed`
+    # attribute that SecFld(modulus, signed=...) overwrites (recorded finding secfld-signedness-shared-per-modulus);
+    # a world stands for a fresh set of processes, so the attribute starts from its default
+    for cls in list(finfields.PrimeFieldElement.__subclasses__()):
+        if getattr(cls, 'is_signed', True) is not True:
+            cls.is_signed = True
 
 
 # ---------------------------------------------------------------- strategies (record mode only)
